@@ -35,12 +35,14 @@ Engine(hooks=None, poly_names=..., tiny=1e-6)
   .visited     {(rel, qualname)} of every repo function that was interpreted
   .checks      number of equal-degree obligations that were decided (both sides known)
   .observers   callbacks (node, left, right, kind) invoked on every + - += -= of two plain quantities
+  .compare_observers  callbacks (Compare node, operand values) on every comparison
   .call_observers  callbacks (node, callee name, args, kwargs) on every call whose arguments were evaluated
   .add_policy  "strict" (default) | "left" (unequal sum takes the left operand's degree, no Mismatch;
                for analyses that compare two runs term by term through `observers`)
   Q.homog      a checker may set it on an array it passes in: element stores with constant indices are then
                checked strictly against `deg` (otherwise an inferred degree is not assumed to hold for all rows)
-  Q.shape      optional Tup a checker may attach to an array; returned for `<array>.shape`
+  Q.shape      optional Tup a checker may attach to an array; returned for `<array>.shape`; `.sum(k)` along an
+               axis whose length is a typed quantity multiplies by that length (e.g. the spin axis, length nspin)
 Hooks (subclass and override; all optional)
   calls: {dotted name: handler(eng, node, args, kwargs, env) -> value}   pluggable known callables
   resolve_call(eng, node, env) -> Fn | None          repo callee resolution
@@ -319,11 +321,12 @@ class SuperObj(Obj):
 
 
 class Fn(Val):
-    def __init__(self, fdef, mod=None, self_val=None, cls=None):
+    def __init__(self, fdef, mod=None, self_val=None, cls=None, closure=None):
         self.fdef = fdef
         self.mod = mod
         self.self_val = self_val
         self.cls = cls  # class reference (constructor) when fdef is its __init__ or None
+        self.closure = closure  # defining Env of a nested function (read at call time, like Python)
 
 
 class ClsRef(Val):
@@ -504,6 +507,7 @@ class Engine:
         self.frames = []
         self.fork_depth = 0
         self.visited = set()         # (rel, qualname) of every repo function interpreted
+        self.compare_observers = []  # callbacks (Compare node, [operand values])
         self.call_observers = []     # callbacks (call node, dotted callee name or attribute, args, kwargs)
         self.observers = []          # callbacks (node, left, right, kind) on every + / - / += / -=
         self.add_policy = "strict"   # "left": a sum of unequal degrees takes its left operand's degree
@@ -538,6 +542,14 @@ class Engine:
     def unify(self, a, b, node, strict, kind):
         """value that is both a and b (same degree required).  strict: a known
         difference is a Mismatch; lenient: it becomes Alt (recorded in conflicts)."""
+        r = self._unify(a, b, node, strict, kind)
+        if isinstance(r, Q) and isinstance(a, Q) and isinstance(b, Q) and r is not a and r is not b:
+            if a.shape is not None and (a.shape is b.shape or (b.shape is not None and same(a.shape, b.shape))):
+                r.shape = a.shape
+            r.homog = a.homog and b.homog
+        return r
+
+    def _unify(self, a, b, node, strict, kind):
         if a is b:
             return a
         if isinstance(a, Unk) or isinstance(b, Unk):
@@ -764,6 +776,11 @@ class _ExprMixin:
             return Q(ANY)
         if n.id in env:
             return env[n.id]
+        c = getattr(env, "closure", None)
+        while c is not None:
+            if n.id in c:
+                return c[n.id]
+            c = getattr(c, "closure", None)
         if n.id in ("True", "False", "None"):
             return K({"True": True, "False": False, "None": None}[n.id])
         v = self.hooks.global_name(self, n.id, env)
@@ -949,6 +966,8 @@ class _ExprMixin:
 
     def _e_Compare(self, n, env):
         vals = [self.eval_expr(n.left, env)] + [self.eval_expr(c, env) for c in n.comparators]
+        for ob in self.compare_observers:
+            ob(n, vals)
         res = True
         for op, a, b in zip(n.ops, vals, vals[1:]):
             r = self._cmp(op, a, b)
@@ -1003,7 +1022,9 @@ class _ExprMixin:
 
     def _comp(self, n, env, elt_fn):
         """list/generator comprehension -> Tup (concrete) or Seq"""
+        outer = env
         env = Env(env)
+        env.closure = getattr(outer, "closure", None)
         concrete = True
         results = []
 
@@ -1086,7 +1107,8 @@ class _ExprMixin:
 
 
 class Env(dict):
-    pass
+    """local names of one frame; `closure` = the Env of the enclosing function for nested defs"""
+    closure = None
 
 
 # ----------------------------------------------------------------------------
@@ -1175,6 +1197,8 @@ class _SubMixin:
                 r.homog = base.homog
             else:
                 r = self._sub_rows(base, parts, n)
+            if isinstance(r, Q) and r is not base and isinstance(base.shape, Tup):
+                r.shape = self._sub_shape(base.shape, parts)
             # x[lo:hi] / x[lo:] along axis 0 is a view: constant-row stores into it are written through
             if isinstance(r, Q) and len(parts) == 1 and parts[0][0] == "range" and parts[0][1] >= 0 \
                     and (not base.is_rows or base.axis == 0) and r is not base:
@@ -1184,6 +1208,22 @@ class _SubMixin:
                 r.view_of = (base, "lead")      # x[s]: view with the leading axis removed
             return r
         return self.unknown(n, "subscript of %s" % type(base).__name__)
+
+    @staticmethod
+    def _sub_shape(shape, parts):
+        items, out = list(shape.items), []
+        for p in parts:
+            if p[0] == "new":
+                out.append(Q(D0))
+                continue
+            if p[0] in ("ell", "mask", "key") or not items:
+                return None
+            it = items.pop(0)
+            if p[0] in ("full", "vslice"):
+                out.append(it)
+            elif p[0] == "range":
+                out.append(Q(D0))
+        return Tup(out + items)
 
     @staticmethod
     def _sub_len(n, parts):
@@ -1756,6 +1796,14 @@ class _CallMixin:
         if isinstance(base, Unk):
             return base
         if isinstance(base, Q):
+            if attr == "sum" and base.shape is not None and isinstance(base.shape, Tup):
+                ax = args[0] if args else kwargs.get("axis")
+                k = self.int_of(ax) if ax is not None else None
+                if k is not None and 0 <= k < len(base.shape.items) and isinstance(base.shape.items[k], Q) \
+                        and base.shape.items[k].deg not in (D0, ANY):
+                    # sum of L equally-typed slices along an axis of (typed) length L
+                    inner = self.method(Q(base.deg, None, base.axis, base.rows, base.n), attr, args, kwargs, n, env)
+                    return self.mul(inner, Q(base.shape.items[k].deg), n, 1)
             if attr in METHODS_PRESERVE:
                 if base.is_rows and attr in ("sum", "mean", "max", "min", "flatten", "ravel", "cumsum"):
                     ax = args[0] if args else kwargs.get("axis")
@@ -1827,6 +1875,7 @@ class _CallMixin:
         is_static = any(pf.src(d) == "staticmethod" for d in fdef.decorator_list)
         is_cls = any(pf.src(d) == "classmethod" for d in fdef.decorator_list)
         env = Env()
+        env.closure = fn.closure
         pos = list(args)
         if fn.self_val is not None and not is_static:
             pos = [fn.self_val if not is_cls else ClsRef(fn.self_val.cls, fn.self_val.mod)
@@ -2017,7 +2066,7 @@ class _StmtMixin:
     _s_Assert = _s_Import = _s_ImportFrom = _s_Global = _s_Nonlocal = _s_Delete = _s_Pass
 
     def _s_FunctionDef(self, st, env):
-        env[st.name] = Fn(st, self.fr.mod)
+        env[st.name] = Fn(st, self.fr.mod, closure=env)
 
     def _s_With(self, st, env):
         return self.exec_block(st.body, env)
@@ -2054,6 +2103,7 @@ class _StmtMixin:
             for b in branches:
                 memo = {}
                 e = Env({k: clone(v, memo) for k, v in env.items()})
+                e.closure = env.closure
                 st = b(e)
                 runs.append((e, memo, st))
         finally:
